@@ -38,10 +38,16 @@ Definition c18_not_blocked (c : case) : bool :=
      match g_lookup GRestoreService (k_pending c) with Some false => to_zero_grace o | _ => true end
   then k_gone c || negb (k_own_fin c) else true.
 
+(* and the way there never goes quiet: a deleting object that keeps the finalizer after a reconcile is retried (error) or
+   has asked for a requeue *)
+Definition c18_never_stalls (c : case) : bool :=
+  if to_deleting (k_obj c) && negb (k_gone c) && k_own_fin c then k_err c || k_requeue c else true.
+
 Definition judge (c : case) : list verdict :=
   [ if corresponds_tc c then VOk else VMismatch;
     clause "C18_trafficrouting_finalizer_guard" (c18_finalizer_guard c);
-    clause "C18_trafficrouting_deletion_not_blocked" (c18_not_blocked c) ].
+    clause "C18_trafficrouting_deletion_not_blocked" (c18_not_blocked c);
+    clause "C18_trafficrouting_teardown_never_stalls" (c18_never_stalls c) ].
 
 Definition tag (c : case) : string :=
   if to_deleting (k_obj c) then (if k_gone c || negb (k_own_fin c) then "deleting/released" else "deleting/held") else "live".
